@@ -507,7 +507,7 @@ Proof.
   exact (fun c u H l Hl cfg inp w Hw Hd Hf Hx =>
            conj (super_roundtrip_l c u H l Hl cfg inp w Hw Hd Hf)
                 (conj (valid_layout_l c u H l Hl cfg inp w Hw Hd Hf (c_devblk cfg) eq_refl Hx)
-                      (valid_tree_l c u H l Hl cfg inp w Hw Hd Hf))).
+                      (valid_tree_l c u H l Hl cfg inp w Hw Hd Hf (c_devblk cfg) eq_refl))).
 Qed.
 Print Assumptions writer_valid_clauses.
 
